@@ -21,6 +21,7 @@ func init() {
 			c.run("C01-R5", "GUARD-DOM: negotiated protocol is the minimum of both ends", func(c *Ctx) { c14R3(c) })
 			c.run("C01-R6", "PAIR: open files do not accumulate over the per-file loops", c01R6)
 			c.run("C01-S4", "shared with C15-R3: archive reader/writer close the previous entry's file", c15R3)
+			c.run("C01-S5", "shared with C04-R4/R6: everything written to the connection is a protocol line with the negotiated newline, or framed/escaped payload whose announced length is its real length", func(c *Ctx) { c04R4(c); c04FrameLen(c) })
 			c.run("C01-S1", "shared with C02: digest compare and saved==size gates dominate success", func(c *Ctx) { c02Digest(c); c02SavedSize(c); c02OneStream(c) })
 			c.run("C01-S2", "shared with C07-R5: the names shown are the names written", c07R5)
 			c.run("C01-S3", "shared with C08-R1/R2: a resumed file is cut at the offset both ends proved equal", func(c *Ctx) { c08R1(c); c08R2(c) })
